@@ -6,7 +6,9 @@ toolchain go1.24.0
 
 require (
 	github.com/shopspring/decimal v1.4.0
+	github.com/smartcontractkit/chainlink-common v0.4.2-0.20250130202959-6f1f48342e36
 	github.com/smartcontractkit/chainlink-data-streams v0.0.0
+	github.com/smartcontractkit/libocr v0.0.0-20250220133800-f3b940c4f298
 )
 
 require (
@@ -35,8 +37,6 @@ require (
 	github.com/prometheus/common v0.62.0 // indirect
 	github.com/prometheus/procfs v0.15.1 // indirect
 	github.com/shirou/gopsutil v3.21.11+incompatible // indirect
-	github.com/smartcontractkit/chainlink-common v0.4.2-0.20250130202959-6f1f48342e36 // indirect
-	github.com/smartcontractkit/libocr v0.0.0-20250220133800-f3b940c4f298 // indirect
 	github.com/tklauser/go-sysconf v0.3.12 // indirect
 	github.com/tklauser/numcpus v0.6.1 // indirect
 	go.opentelemetry.io/auto/sdk v1.1.0 // indirect
